@@ -1,7 +1,8 @@
 Require Extraction.
 Require Import ExtrOcamlBasic.
-From Pygls Require Import Model.Features Model.Dispatch Spec.DispatchSpec.
+From Pygls Require Import Model.Features Spec.FeaturesSpec Model.Dispatch Spec.DispatchSpec Proofs.C14Proofs.
 Extraction Language OCaml.
 Extraction "../ocaml/gen/c14_model.ml"
+  has_ls_g see asks_server has_ls_param_or_annotation inj_ok sig_ok
   registry_of builtins init step run quiescent meth_of req_id ws_effect
   w0 delivered expect actual builtin_ok spec_step spec_run all_ok calls_of exec_site get_handler dispatch exec_command.
